@@ -839,7 +839,7 @@ def part_a(ctx, cov):
         "rule": "distinct operation sequences of length >= 2 in which, on at least one pool kind, an applicable operation "
                 "(one that did not raise) was handed at least one caller-owned array (right-hand side, x0, start vector, "
                 "index array, or the array result of an earlier step)",
-        "exhaustive": {"alphabet": len(SHORT_ALPHABET), "length_1": len(SHORT_ALPHABET), "length_2": len(SHORT_ALPHABET) ** 2,
+        "exhaustive_detail": {"alphabet": len(SHORT_ALPHABET), "length_1": len(SHORT_ALPHABET), "length_2": len(SHORT_ALPHABET) ** 2,
                        "length_3": len(l3), "length_3_all": bool(ctx.thorough)},
         "random_long": {"count": len(longs), "length": "4..8", "alphabet": len(LONG_ALPHABET)},
         "alphabet": SHORT_ALPHABET,
